@@ -17,6 +17,7 @@ import (
 	"io"
 	"sync"
 	"testing/synctest"
+	"time"
 
 	quic "github.com/refraction-networking/uquic"
 	u "github.com/refraction-networking/uquic/internal/verifutil"
@@ -293,5 +294,83 @@ func runOneFanout(c rlFanoutCase, o *rlOut) {
 	})
 	if err != nil {
 		o.fail("runloop/fanout-leak-or-panic", err.Error()+" :: "+c.String())
+	}
+}
+
+// ---- CONNECTION_CLOSE during the handshake, through the real packer: the server closes its half-open connection
+// (application error / transport error) right after the client's first flight arrived; what the dialing client records.
+func runOneHsClose(isApp bool, code uint64, plain bool, o *rlOut) {
+	desc := fmt.Sprintf("hsclose app=%v code=%d plain=%v", isApp, code, plain)
+	err := inBubble(func() {
+		rtt := 20 * time.Millisecond
+		e, err := newSimEnv(simOpts{RTT: rtt, PlainPath: plain})
+		if err != nil {
+			o.fail("runloop/env", err.Error())
+			return
+		}
+		defer e.Close()
+		ctx, cancel := context.WithCancel(context.Background())
+		defer cancel()
+		type dres struct {
+			conn *quic.Conn
+			err  error
+		}
+		dch := make(chan dres, 1)
+		go func() {
+			conn, err := e.Dial(ctx)
+			dch <- dres{conn, err}
+		}()
+		time.Sleep(rtt / 2) // the client's first flight arrives: the server creates the connection
+		synctest.Wait()
+		srv := quic.VerifTransportConns(e.SrvTr)
+		if len(srv) != 1 {
+			o.fail("runloop/hsclose-setup", fmt.Sprintf("%d server connections after the first flight: %s", len(srv), desc))
+			return
+		}
+		if quic.VerifRunLoopSnapshot(srv[0]).HandshakeComplete {
+			o.fail("runloop/hsclose-setup", "server handshake already complete: "+desc)
+			return
+		}
+		if isApp {
+			go srv[0].CloseWithError(quic.ApplicationErrorCode(code), "too early for this")
+		} else {
+			quic.VerifRequestClose(srv[0], quic.VerifMakeErr(quic.VerifErrTransport, code), false)
+		}
+		var d dres
+		select {
+		case d = <-dch:
+		case <-time.After(30 * time.Second):
+			o.fail("runloop/hsclose-dial-hang", "Dial still parked 30 s after the server closed the half-open connection: "+desc)
+			cancel()
+			d = <-dch
+		}
+		cause := d.err
+		if d.err == nil { // the handshake completed in the same instant: the connection must be closed with the cause right away
+			select {
+			case <-d.conn.Context().Done():
+				cause = context.Cause(d.conn.Context())
+			case <-time.After(time.Second):
+				o.fail("runloop/hsclose-not-closed", "Dial returned a connection that is not closed 1 s later: "+desc)
+				d.conn.CloseWithError(0, "")
+				return
+			}
+		}
+		k, c := classifyErr(cause)
+		// monitor: a peer that has not completed the handshake is never shown an application close
+		// (RFC 9000 10.2.3: APPLICATION_ERROR, no reason phrase), a transport error arrives as it is
+		var te *quic.TransportError
+		switch {
+		case isApp && !(k == ekTransportRemote && c == uint64(quic.ApplicationErrorErrorCode)):
+			o.fail("runloop/hsclose-app-frame", fmt.Sprintf("the client recorded %v: %s", cause, desc))
+		case isApp && errors.As(cause, &te) && te.ErrorMessage != "":
+			o.fail("runloop/hsclose-app-reason", fmt.Sprintf("the reason phrase %q of the application close reached the handshaking client: %s", te.ErrorMessage, desc))
+		case !isApp && !(k == ekTransportRemote && c == code):
+			o.fail("runloop/hsclose-transport-frame", fmt.Sprintf("the client recorded %v: %s", cause, desc))
+		}
+		o.emit(1, u.App("HsCloseCase", u.B(isApp), u.ZU(code), errPair(k, c)))
+		o.count(fmt.Sprintf("hsclose app=%v", isApp))
+	})
+	if err != nil {
+		o.fail("runloop/leak-or-panic", err.Error()+" :: "+desc)
 	}
 }
